@@ -1,6 +1,6 @@
 SPECIFICATION Spec
 CONSTANTS
-  MaxOps = 4
+  MaxOps = 3
   Groups = {"list", "listns", "tree", "arr", "mat", "ds", "memo", "seed"}
   Big = FALSE
   Focus = "D"
